@@ -119,6 +119,11 @@ VARIANTS = [
     dict(name="copies share the preprocessing dict", kind="break", file=CORE,
          old='            "root",\n            "size_dict",\n', new='            "root",\n            "preprocessing",\n            "size_dict",\n',
          expect=("C02-COPY", "preprocessing")),
+    dict(name="extract_contractions reads preprocessing before computing the recipes", kind="break",
+         file="cotengra/contract.py",
+         old="    contractions = []\n\n    # pairwise contractions\n",
+         new="    contractions = []\n    pre = dict(tree.preprocessing)\n\n    # pairwise contractions\n",
+         expect=("C02-PREPROC", "extract_contractions")),
     # ---- twins ----
     dict(name="twin: reorder the reset tuple", kind="twin", file=CORE, old=RESET_TUPLE,
          new='''            for k in (
